@@ -494,6 +494,8 @@ class Tree_value(Contract):
         kids.elem = elem
         t.fields["_children"] = kids
         cx.assume(FlatUpTo(t.ident, z3.IntVal(0)) == EMPTY_BITS)
+        from pyvc.dsl import unknown_fields
+        unknown_fields(cx, t)
         return {"self": t}
 
     # recursive call child.value(): by this very contract
@@ -514,6 +516,11 @@ class Tree_value(Contract):
         if "_children" not in t.fields:
             return []
         n = to_term_int(t.fields["_children"].length)
-        wrote = [w for w in cx.writes if isinstance(w[0], SObj) and not w[0].fresh]
+        structural = ("_children", "_parent", "_symbol", "_sender", "_recipient", "_size", "hash_cache", "read_only",
+                      "_sources", "origin_repetitions", "_value", "_trailing_bits")
+        wrote = [w for w in cx.writes if isinstance(w[0], SObj) and not w[0].fresh and w[1] in structural]
+        if not isinstance(r, SObj):
+            return [("returns_a_fresh_tree_value", z3.BoolVal(False))]
         return [("value_is_in_order_concatenation_of_children", flat(cx, r) == FlatUpTo(t.ident, n)),
-                ("no_pre_existing_object_written", z3.BoolVal(not wrote))]
+                ("returns_a_fresh_tree_value", z3.BoolVal(bool(r.fresh))),
+                ("no_structural_field_of_a_pre_existing_object_written", z3.BoolVal(not wrote))]
